@@ -454,7 +454,9 @@ CLAIMED.update(
             "and bindings; the 5-tuple the child sends and the names the parent unpacks agree in length and role, the RNG state sent is installed, results are zipped strictly with the old "
             "and new bindings, the child's tracer state is installed; the tracer state getter and setter use the same keys; _fix_result_for_pickle has a filter and a clear handler for "
             "every ExecutionResult field that can carry SUT objects (plain int/bool fields exempt by annotation); interpreting clone() of all five reference-assertion classes for 3 sources "
-            "(plain, one and two attribute levels) x 3 identity/empty memos shows source and payload unchanged. Equality of the two executions themselves is not decided.",
+            "(plain, one and two attribute levels) x 3 identity/empty memos shows source and payload unchanged; every attribute of TestCaseExecutor that a setter can change after construction "
+            "and that the execution path reads (observers, remote observers, the instrument flag) is handed to the child by _setup_subprocess_execution, and the child uses every parameter it "
+            "receives. Equality of the two executions themselves is not decided.",
             "Trusts sa/engine/peval.py (class instantiation incl. super()), python's ast.",
             "DESIGN.md §3 C31",
         ),
